@@ -12,5 +12,5 @@ CONSTANTS
   CacheKinds = {"none", "map", "lru", "lru1"}
 SPECIFICATION GSpec
 ACTION_CONSTRAINT EmitHist
-INVARIANTS GateIndependent CacheInv TArgMono TArgMatters
+INVARIANTS GateIndependent CacheInv TArgMono TArgMatters TBindState
 CHECK_DEADLOCK FALSE
